@@ -90,9 +90,9 @@ PROPS = {
                 rule="a generated schema (no Preprocess, no custom coercers; tests, Catch, Default and PostTransforms at every level) and a generated fully populated value of its destination type (no zero leaf, no empty slice, no nil pointer); the value is validated in place and, presented as the plain map it would be decoded from, parsed into a fresh destination; issues (path, code, type, message) and final values are compared with each other (model-free; with PostTransforms only when neither run reports an issue, because their gating on the execution-wide error state makes the result depend on each run's field visit order - the recorded C09 finding) and both executions with the Coq engine under their own visit orders; distinct = distinct (schema shape, issue codes, mode)",
                 families=[dict(name="modes", family="modes", profile="C13", quick=700, thorough=12000, tags=["modes_agree", "panic", "nil", "issues", "dest"])]),
     "C14": dict(theorems=["C14_struct_sources_agree", "C14_engine_computes_semantics", "C14_provider_key", "C14_factory_transparent_struct",
-                          "C14_factory_transparent_ptr", "C14_nested_source_tag_refuted", "C14_nested_flat_source_refuted"],
-                cone=ENGINE_CONE + ["Proofs/FrontEndsP.v"],
-                rule="one generated logical record (JSON-expressible) for a generated struct schema (tags json/form/query/env/zog) is sent through zjson, zhttp JSON/form/query requests (methods, charset parameters, decoy query/body values, malformed bodies, middleware pre-parsing) or the environment; model input = what encoding/json, url.ParseQuery or TrimSpace yield when called directly; plus a model-free cross-front-end oracle against the same record as a Go map; distinct = distinct (front end, schema shape, issue codes)",
+                          "C14_factory_transparent_ptr", "C14_env_blank_iff_trimmed_empty", "C14_env_trim_keeps_text", "C14_nested_source_tag_refuted", "C14_nested_flat_source_refuted"],
+                cone=ENGINE_CONE + ["Proofs/FrontEndsP.v", "Model/Trim.v", "Proofs/TrimP.v"],
+                rule="one generated logical record (JSON-expressible) for a generated struct schema (tags json/form/query/env/zog) is sent through zjson, zhttp JSON/form/query requests (methods, charset parameters, decoy query/body values, malformed bodies, middleware pre-parsing) or the environment; model input = what encoding/json or url.ParseQuery yield when called directly; environment values are handed to the model raw (white space of every kind around them) and trimmed by the model's own TrimSpace; plus a model-free cross-front-end oracle against the same record as a Go map; distinct = distinct (front end, schema shape, issue codes)",
                 families=[dict(name="fe", family="fe", profile="fe", quick=1500, thorough=20000,
                                tags=["nil", "issues", "dest", "panic", "fe_equiv", "fe_nested_flat", "nested_source_tag", "nested_flat_source"])]),
     "C15": dict(theorems=["C15_get_head_query", "C15_other_methods", "C15_json_iff", "C15_form_iff", "C15_media_type_every_spelling", "C15_media_type_only_spellings", "C15_legacy_dispatch_refuted", "C15_params_ignored", "C15_decode_failure_struct",
